@@ -501,4 +501,4 @@ def run_members(case, rec):
 
 def parts(ctx):
     return [Part('grid', run_grid, enumerate=grid_enum, exhaustive=True),
-            Part('members', run_members, strategy=member_values(), n=ctx.n(300, 8000), budget_s=ctx.n(120, 3000))]
+            Part('members', run_members, strategy=member_values(), n=ctx.n(600, 8000), budget_s=ctx.n(120, 3000))]
